@@ -151,3 +151,27 @@ HARNESS(h_stringref) {
   HAVOC_ARR(IN_s, N); HAVOC(IN_info);
   if (0) {} CR(0) CR(1) CR(2) CR(3) CR(23)
 }
+
+/* calculate_mdarray_size: extents come straight from input bytes.  No division by zero / overflow (safety mode), and an accepted size is the exact product. */
+#ifndef NEXT
+#define NEXT 2
+#endif
+INPUT_ARR(u64, IN_ext, 4)
+HARNESS(h_mdsize) {
+  HAVOC_ARR(IN_ext, 4);
+  u64* e = malloc(8 * (NEXT ? NEXT : 1)); ASSUME(e != 0); for (int i = 0; i < NEXT; i++) e[i] = IN_ext[i];
+#ifdef EXTMAX
+  for (int i = 1; i < NEXT; i++) ASSUME(e[i] <= EXTMAX);   /* exact-product jobs: later extents in a stated window (64x64 multiply/divide equivalence on the full domain gives no verdict) */
+#endif
+  u64 out = 0; int ok = k_mdsize(e, NEXT, &out);
+#ifdef SAFETY_ONLY
+  /* full domain: only the safety-mode assertions (division by zero, overflow traps, bounds) and termination are checked */
+  WIT(ok && out > 1000 && e[0] > 1); return;
+#endif
+  /* reference: exact product in 128 bits, step by step (each partial product must fit 64 bits) */
+  u128 p = NEXT ? e[0] : 0; int fits = 1;
+  for (int i = 1; i < NEXT; i++) { if (e[i] != 0 && p > (u128)0xffffffffffffffffULL / e[i]) fits = 0; if (fits) p = p * e[i]; }
+  if (ok) P(fits && (u128)out == p, "an accepted extents list denotes exactly the product of the extents (no wrap-around)");
+  if (!fits) P(!ok, "a product that does not fit size_t is refused");
+  WIT(NEXT < 2 ? ok : (ok && out > 1000 && e[0] > 1));
+}
